@@ -20,12 +20,22 @@
 (* Generations are natural numbers in minting order (the code uses a       *)
 (* millisecond timestamp + salt; the collector skips generations minted at *)
 (* or after its floor).                                                    *)
+(*                                                                         *)
+(* Legacy (pre-0.10) objects: a commit point WITHOUT a generation refers   *)
+(* to the mutable payload data/<k>.  They are modelled as the distinguished*)
+(* generation Leg, which is never minted: such objects exist only in the   *)
+(* initial state (InitWith), referenced by a pointer or orphaned.  The     *)
+(* first overwrite migrates the key (the switch replaces Leg, the reclaim  *)
+(* removes data/<k>); the collector treats data/<k> as a candidate without *)
+(* a floor and without an in-flight check (it has no generation), only the *)
+(* re-read of the commit point protects it.                                *)
 (***************************************************************************)
 EXTENDS Naturals, FiniteSets, Sequences
 
 CONSTANTS Key, Val, Proc, MaxGen
 
 NoPtr == [g |-> 0, v |-> 0]
+Leg == 1000000          \* the "generation" of a legacy payload data/<k>
 
 VARIABLES
   meta,      \* [Key -> [g, v]]   meta/<k> : pointer + what was committed (g = 0: absent)
@@ -42,6 +52,14 @@ GcIdle == [st |-> "idle", floor |-> 0, marked |-> [k \in Key |-> 0], cands |-> {
 
 Init ==
   /\ meta = [k \in Key |-> NoPtr] /\ gen = {} /\ nextGen = 1 /\ inflight = {}
+  /\ pc = [p \in Proc |-> Idle] /\ gc = GcIdle
+
+\* a store inherited from the pre-0.10 layout: `ptr` = legacy commit points, `orph` = legacy payloads
+\* without one (both: [subset of Key -> Val], disjoint domains)
+InitWith(ptr, orph) ==
+  /\ meta = [k \in Key |-> IF k \in DOMAIN ptr THEN [g |-> Leg, v |-> ptr[k]] ELSE NoPtr]
+  /\ gen = {<<k, Leg, ptr[k]>> : k \in DOMAIN ptr} \cup {<<k, Leg, orph[k]>> : k \in DOMAIN orph}
+  /\ nextGen = 1 /\ inflight = {}
   /\ pc = [p \in Proc |-> Idle] /\ gc = GcIdle
 
 Present(k) == meta[k].g # 0
@@ -136,7 +154,7 @@ GcMark(k) ==
 GcList ==
   /\ gc.st = "mark" /\ \A k \in Key : gc.marked[k] # 0
   /\ gc' = [gc EXCEPT !.st = "sweep",
-                      !.cands = {o \in gen : o[2] < gc.floor /\ gc.marked[o[1]] - 1 # o[2]}]
+                      !.cands = {o \in gen : (o[2] = Leg \/ o[2] < gc.floor) /\ gc.marked[o[1]] - 1 # o[2]}]
   /\ UNCHANGED <<meta, gen, nextGen, inflight, pc>>
 
 \* per candidate: skip when in flight or referenced NOW, else delete
